@@ -246,12 +246,16 @@ class Frame(object):
                     **kwargs)
         frame.add_metadata(metadata)
 
-        # Remove h5 object, which can't be pickled
+        # An open h5py file handle can't be deep copied: detach it for the copy and put it 
+        # back, so that the Waterfall handed in (the parent frame's, or the caller's) stays usable
+        h5 = None
+        if waterfall is not None and hasattr(waterfall, 'container'):
+            h5 = waterfall.container.__dict__.pop('h5', None)
         try:
-            del waterfall.container.h5
-        except AttributeError:
-            pass
-        frame.waterfall = copy.deepcopy(waterfall)
+            frame.waterfall = copy.deepcopy(waterfall)
+        finally:
+            if h5 is not None:
+                waterfall.container.h5 = h5
         return frame
 
     @classmethod
